@@ -16,3 +16,10 @@ Extraction "extracted/c11_asm_model.ml" assemble asm_collect asm_finish asm_rese
   gbm_predict sum_incrs avg_rows result_done bloop
   C10_Defs.merge C10_Defs.scale C10_Defs.try_merge C10_Defs.zeros
   Qplus Qminus Qmult Qdiv Qopp Qle_bool Qeq_bool inject_Z.
+
+(* extension "stats" (C11_Stats_Defs): store_stats / load_stats over exact rationals (mean, variance, stdev radicand) and in
+   binary64 (percentiles, value(), optimum_trial(): scalar code, compared bit for bit), the layout of m_values / m_optims, the
+   queries of ml::result_t. Third file; Z / positive are Zarith integers (mapping loaded above), floats are OCaml floats. *)
+From LN Require Import C16_Defs C20_Defs C11_Stats_Defs.
+Extraction "extracted/c11_stats_model.ml" q_stats q_mean q_variance q_stdev2 q_count f_stats st_positions st_pcts
+  f_new f_add f_store f_store_final f_stats_of f_stats_final f_value f_optimum q_closest Qred.
